@@ -261,6 +261,10 @@ func VH_C04_OpenActions() {
 	if vNondetBool("with_reply") {
 		reply = vNondetBytes("reply", 3)
 	}
+	peerGone := vNondetBool("peer_gone") // the peer has already hung up: writing the reply fails with EPIPE
+	if peerGone {
+		vk.S[vConnFD].WriteErr = 32
+	}
 	w.h.onOpen = func(cc *conn) ([]byte, Action) {
 		if closeInside {
 			_ = w.el.Close(cc)
@@ -276,6 +280,12 @@ func VH_C04_OpenActions() {
 	}
 	g := w.h.g(c)
 	vAssert("C04.open.onopen_exactly_once_and_first", g.opens == 1 && g.openBeforeTraffic && g.traffics == 0)
+	if peerGone && reply != nil && !closeInside {
+		// the close is caused by the I/O failure, not requested locally: OnClose must say so
+		vAssert("C04.open.failed_reply_closes_with_an_error", g.closes == 1 && !g.closeErrNil && w.vClosedOK(c, vConnFD) && w.el.countConn() == 1 && err == nil)
+		vReach("C04.open.failed_reply.end")
+		return
+	}
 	closed := closeInside || act == Close
 	if closed {
 		vAssert("C04.open.closed_once_with_nil_error", g.closes == 1 && g.closeErrNil && w.vClosedOK(c, vConnFD) && w.el.countConn() == 1)
